@@ -9,6 +9,7 @@ import (
 	"crypto/tls"
 	"math/rand"
 	"os"
+	"runtime"
 	"encoding/json"
 	"fmt"
 	"io"
@@ -111,6 +112,7 @@ type session struct {
 
 	hist     []Op
 	findings []finding
+	closed   bool
 	broken   string // non-empty: the harness could not reach quiescence; the rig must be dropped
 	httpc    *http.Client // to HTTP listeners: one connection per request
 	tsc      *http.Client // to the teamserver's own TLS port
@@ -119,34 +121,96 @@ type session struct {
 const barrierWait = 40 * time.Second
 
 func newSession(c *lib.Ctx, onetime, service bool) (*session, error) {
-	r, err := rig.New(rig.Options{Full: true, Service: service})
-	if err != nil {
-		return nil, err
+	var last error
+	for try := 0; try < 6; try++ {
+		s, retry, err := newSessionOnce(c, onetime)
+		if err == nil {
+			return s, nil
+		}
+		last = err
+		if !retry {
+			break
+		}
+		c.Observe("rig-port-collisions", 1)
 	}
-	s := &session{c: c, r: r, onetime: onetime,
+	return nil, last
+}
+
+// newSessionOnce builds a rig and logs alice and bob in. rig.New picks the teamserver
+// port with listen(:0)+close; with 16 workers (and their children) doing the same, the
+// port can be taken by another process before Start() binds it, and the rig's "is it
+// accepting" test is then answered by somebody else's teamserver with the same operator
+// accounts. So: after alice's login our own client table must hold her connection.
+func newSessionOnce(c *lib.Ctx, onetime bool) (s *session, retry bool, err error) {
+	// every rig has a Service block: without one any non-Demon magic value dereferences a
+	// nil registry (DESIGN §4 #5, property C01)
+	r, err := rig.New(rig.Options{Full: true, Service: true})
+	if err != nil {
+		return nil, false, err
+	}
+	s = &session{c: c, r: r, onetime: onetime,
 		model: map[string]*mListener{}, ports: map[string]int{}, wasHTTP: map[string]int{},
 		held: map[string]net.Listener{}, live: map[string]string{}, reserved: map[string]bool{}}
 	s.addr = fmt.Sprintf("127.0.0.1:%d", r.Port)
 	s.httpc = &http.Client{Timeout: 30 * time.Second, Transport: &http.Transport{DisableKeepAlives: true}}
 	s.tsc = newTSClient()
+	foreign := func() bool {
+		if s.clientCount() > 0 {
+			return false
+		}
+		// not ours. Our own Start() goroutine may still be writing its certificate into the
+		// rig directory (it exits the process if that fails): let it finish before removing it
+		for deadline := time.Now().Add(15 * time.Second); time.Now().Before(deadline); time.Sleep(10 * time.Millisecond) {
+			if _, e := os.Stat(r.Dir + "/data/server.key"); e == nil {
+				break
+			}
+		}
+		time.Sleep(50 * time.Millisecond)
+		return true
+	}
 	if s.alice, err = opclient.Connect(s.addr, "alice", "pw-alice"); err != nil {
-		r.Close()
-		return nil, fmt.Errorf("alice: %v", err)
+		if foreign() {
+			s.close()
+			return nil, true, fmt.Errorf("teamserver port %d was taken by another process", r.Port)
+		}
+		s.close()
+		return nil, false, fmt.Errorf("alice: %v", err)
+	}
+	if foreign() {
+		s.close()
+		return nil, true, fmt.Errorf("teamserver port %d was taken by another process", r.Port)
 	}
 	if s.bob, err = opclient.Connect(s.addr, "bob", "pw-bob"); err != nil {
-		s.alice.Close()
-		r.Close()
-		return nil, fmt.Errorf("bob: %v", err)
+		s.close()
+		return nil, false, fmt.Errorf("bob: %v", err)
+	}
+	// bob's connection handler appends to the event log and replays it after the login
+	// verdict; it reads bob's next message only when that is done. Until then an operation
+	// by alice would run concurrently with it (the log is not locked: property C11).
+	s.tok++
+	btok := fmt.Sprintf("c16-login-%d-%d", r.Port, s.tok)
+	s.bob.SendRaw(pkgJSON(opclient.EvChat, "bob", opclient.ChatNewMessage, map[string]any{"User": "bob", "Message": btok}, true))
+	if _, ok := s.bob.WaitFor(isChat(btok), barrierWait); !ok {
+		s.close()
+		return nil, false, fmt.Errorf("listening operator never finished its login")
 	}
 	if !s.barrier() {
 		s.close()
-		return nil, fmt.Errorf("no quiescence after login: %s", s.broken)
+		return nil, false, fmt.Errorf("no quiescence after login: %s", s.broken)
+	}
+	if n := s.clientCount(); n != 2 {
+		s.close()
+		return nil, true, fmt.Errorf("client table holds %d connections after two logins (foreign clients on our port?)", n)
 	}
 	s.bobSeen = s.bob.Count()
-	return s, nil
+	return s, false, nil
 }
 
 func (s *session) close() {
+	if s.closed {
+		return
+	}
+	s.closed = true
 	for _, l := range s.held {
 		l.Close()
 	}
@@ -191,10 +255,12 @@ func (s *session) barrier() bool {
 	}
 	if _, ok := s.alice.WaitFor(isChat(tok), barrierWait); !ok {
 		s.broken = "barrier token not echoed to the sending operator"
+		dumpGoroutines(s.broken)
 		return false
 	}
 	if _, ok := s.bob.WaitFor(isChat(tok), barrierWait); !ok {
 		s.broken = "barrier token not broadcast to the listening operator"
+		dumpGoroutines(s.broken)
 		return false
 	}
 	return true
@@ -341,9 +407,20 @@ func (s *session) apply(op Op) {
 				}
 				s.wasHTTP[op.N] = m.Port
 			} else {
-				if !rig.WaitTCP(addr, 20*time.Second) {
-					// not a verdict by itself: the functional check below reports it
-					s.c.Observe("http-start-not-accepting", 1)
+				up := false
+				for deadline := time.Now().Add(20 * time.Second); time.Now().Before(deadline); time.Sleep(5 * time.Millisecond) {
+					if listenerErrorFor(s.bob.Frames()[bobMark:], op.N) {
+						break
+					}
+					if up = rig.WaitTCP(addr, 50*time.Millisecond); up {
+						break
+					}
+				}
+				if !up && listenerErrorFor(s.bob.Frames()[bobMark:], op.N) {
+					// ports are picked, not reserved: another process may have taken it
+					s.broken = fmt.Sprintf("HTTP listener %q could not bind port %d although the harness did not hold it", op.N, m.Port)
+					s.model[op.N] = m
+					return
 				}
 				delete(s.wasHTTP, op.N)
 			}
@@ -379,6 +456,20 @@ func (s *session) apply(op Op) {
 		old := cur.Gen
 		cur.Gen = s.gen
 		s.probeProfile(op.N, cur, old)
+		// ... and only to that listener
+		for n, m := range s.model {
+			if n == op.N || m.Kind != "Http" || m.Failed {
+				continue
+			}
+			st, e := s.post(m.Port, m.Gen, m.Gen, m.Gen)
+			s.c.Eval()
+			if st != 200 {
+				s.find("edit-changed-other-listener", fmt.Sprintf("after editing %q, HTTP listener %q no longer accepts a request matching its own (unedited) profile g%d: status %d %s", op.N, n, m.Gen, st, e),
+					map[string]any{"edited": op.N, "other": n})
+			} else {
+				s.c.Observe("edit-left-other-listener-alone", 1)
+			}
+		}
 	}
 	if op.V == "add" && cur == nil && op.K == "Http" && !op.Occ {
 		s.probeProfile(op.N, s.model[op.N], -1)
@@ -623,7 +714,22 @@ func (s *session) freshReplay() (map[string]string, bool) {
 		s.broken = "disconnect of the fresh operator was never announced"
 		return nil, false
 	}
+	// ... and has dropped the connection from its client table: a broadcast written to a
+	// closed connection leaves that client's mutex locked (SendEvent, property C11), and a
+	// second one would then block the broadcasting handler for good
+	for deadline := time.Now().Add(barrierWait); s.clientCount() > 2; time.Sleep(200 * time.Microsecond) {
+		if time.Now().After(deadline) {
+			s.broken = "the fresh operator's connection was never dropped from the client table"
+			return nil, false
+		}
+	}
 	return tab, true
+}
+
+func (s *session) clientCount() int {
+	n := 0
+	s.r.TS.Clients.Range(func(k, v any) bool { n++; return true })
+	return n
 }
 
 func (s *session) unroutedRef() (int, string) {
@@ -635,6 +741,12 @@ func (s *session) unroutedRef() (int, string) {
 // handler, an unrouted path gets gin's empty 200.
 func (s *session) postTS(endpoint string) (int, string) {
 	return postEndpoint(s.tsc, s.r.Port, endpoint, demon.Header(0x7e57ab1e, 0x1601, 1, 1, []byte("c16-probe")))
+}
+
+func dumpGoroutines(why string) {
+	buf := make([]byte, 1<<20)
+	n := runtime.Stack(buf, true)
+	fmt.Fprintf(os.Stderr, "C16: %s; goroutines:\n%s\n", why, buf[:n])
 }
 
 func newTSClient() *http.Client {
@@ -678,6 +790,12 @@ func postEndpoint(hc *http.Client, port int, endpoint string, body []byte) (int,
 // functional side: External routes, HTTP ports.
 func (s *session) checkViews(fresh bool) {
 	s.c.Eval()
+	if n := s.clientCount(); n != 2 {
+		// somebody else's operator is logged in to this teamserver (another worker's rig lost
+		// the race for the port and was answered by us): nothing observed here can be trusted
+		s.broken = fmt.Sprintf("client table holds %d connections instead of alice and bob", n)
+		return
+	}
 	fs := s.bob.Frames()
 	advertised(fs[s.bobSeen:], s.live)
 	s.bobSeen = len(fs)
@@ -701,7 +819,13 @@ func (s *session) checkViews(fresh bool) {
 	for name, kinds := range byName {
 		if len(kinds) > 1 {
 			sort.Strings(kinds)
-			s.find("dup-name:"+strings.Join(uniq(kinds), "+"), fmt.Sprintf("the running registry holds %d listeners named %q (%s)", len(kinds), name, strings.Join(kinds, ", ")),
+			class := strings.Join(uniq(kinds), "+")
+			for _, k := range kinds {
+				if k == "service-defined" {
+					class = "service-defined-instance" // started through dispatch.go's default case
+				}
+			}
+			s.find("dup-name:"+class, fmt.Sprintf("the running registry holds %d listeners named %q (%s)", len(kinds), name, strings.Join(kinds, ", ")),
 				map[string]any{"registry": all})
 		}
 	}
@@ -731,14 +855,14 @@ func (s *session) checkViews(fresh bool) {
 	// (3) advertised: live accumulation of a connected operator
 	if ex, mi := diff(keys(s.live), reg); len(ex)+len(mi) > 0 {
 		s.find("advertised-live-vs-running:"+em(ex, mi), fmt.Sprintf("a connected operator has accumulated %v, running registry %v", setOf(keys(s.live)), setOf(reg)),
-			map[string]any{"live": s.live, "registry": all})
+			map[string]any{"live": s.live, "registry": all, "listener_frames_seen": listenerFrames(fs)})
 	}
 	// failed starts must not be shown as online
 	for n, m := range s.model {
 		if m.Kind == "Http" && m.Failed {
 			if st, ok := s.live[n]; ok && st == "Online" {
 				// the Add event is broadcast before the bind result is known; the Error event follows
-				s.find("failed-start-advertised-online", fmt.Sprintf("listener %q failed to bind but connected operators still see it Online", n), map[string]any{"live": s.live})
+				s.find("failed-start-advertised-online", fmt.Sprintf("listener %q failed to bind but connected operators still see it Online", n), map[string]any{"live": s.live, "listener_frames_seen": listenerFrames(fs)})
 			}
 		}
 	}
@@ -813,6 +937,20 @@ func (s *session) checkViews(fresh bool) {
 			s.c.Observe("http-not-running-refuses", 1)
 		}
 	}
+}
+
+// listenerFrames renders the Listener events an operator has received (for witnesses).
+func listenerFrames(fs []opclient.Frame) []string {
+	var out []string
+	for _, f := range fs {
+		if f.Head.Event == opclient.EvListener || f.BadErr != "" {
+			out = append(out, fmt.Sprintf("#%d sub=%d user=%q name=%q status=%q bad=%q", f.Seq, f.Body.SubEvent, f.Head.User, f.InfoStr("Name"), f.InfoStr("Status"), f.BadErr))
+		}
+	}
+	if len(out) > 40 {
+		out = out[len(out)-40:]
+	}
+	return out
 }
 
 func em(extra, missing []string) string {
